@@ -281,6 +281,11 @@ def run(rep: Report, tier: str) -> None:  # noqa: C901
     rep.rule("R06.11", "dataset-level analytic operators: the measures Analytic.validate declares == the measure columns of the generated SELECT, for one and two operand measures")
     from sa.checks.c10 import analytic_measures_agree as _ama
     _ama(P, rep, "R06.11")
+    # ---- R06.12: a Date column ordered by an analytic window keeps its time part whatever the row order (shared with C18 R18.4) ----
+    rep.rule("R06.12", "DataFrame Date column: TIMESTAMP iff SOME value has a time part - a decision taken from the first value truncates later date-times, and range windows "
+                       "ordered by that column then depend on the order of the input rows")
+    from sa.checks.c18 import timestamp_decision_existential as _tde
+    _tde(P, rep, "R06.12")
     rep.assumptions = ["DuckDB's window functions of the same name implement the VTL analytic operators over the given OVER clause",
                        "grammar alternative <-> constructor method pairing (ANTLR naming)"]
 
